@@ -296,7 +296,11 @@ func (w *world) genPath() string {
 	inCanary := ""
 	for depth := 0; depth < 5; depth++ {
 		if w.r.Chance(1, 12) {
-			comps = append(comps, []string{"..", ".", "", "nosuch", "../canary"}[w.r.Intn(5)])
+			j := []string{"..", ".", "", "nosuch", "../canary", "../canary"}[w.r.Intn(6)]
+			comps = append(comps, j)
+			if j == "../canary" && cur == 1 && inCanary == "" {
+				inCanary = "dir" // would be the canary directory if ".." were accepted
+			}
 			continue
 		}
 		if inCanary != "" {
@@ -627,7 +631,7 @@ func (w *world) opsCase(c *hx.Ctx) {
 	for k := 0; k < n; k++ {
 		var item, out string
 		switch x := w.r.Intn(100); {
-		case x < 34:
+		case x < 30:
 			p := w.genPath()
 			res, data := openResult(first2(opener.OpenFile(p)))
 			item, out = "o:"+hx.EncText(p), res
@@ -639,6 +643,62 @@ func (w *world) opsCase(c *hx.Ctx) {
 			}
 			openerFresh = false
 			c.Count("opener:" + res[:2])
+		case x < 37:
+			// a Directory primitive with an arbitrary raw name
+			ds := w.dirs()
+			d := ds[w.r.Intn(len(ds))]
+			var name string
+			switch w.r.Intn(4) {
+			case 0:
+				name = []string{"..", ".", "", "../canary/secret-1", "../canary", "a/b", "./f", "sub/../..", "/etc/passwd"}[w.r.Intn(9)]
+			default:
+				if es := w.nodes[d].entries; len(es) > 0 {
+					e := es[w.r.Intn(len(es))]
+					name = e.name
+					if c2 := w.nodes[e.ino]; w.r.Chance(1, 2) {
+						switch {
+						case c2.kind == 'L' && strings.HasSuffix(c2.target, "canary"):
+							name += "/" + canaryNames[w.r.Intn(2)]
+						case c2.kind == 'L' && strings.HasSuffix(c2.target, "inner"):
+							name += "/secret-3"
+						case c2.kind == 'D' && len(c2.entries) > 0:
+							name += "/" + c2.entries[w.r.Intn(len(c2.entries))].name
+						}
+					}
+				} else {
+					name = "nosuch"
+				}
+			}
+			wantDir := w.r.Chance(1, 3)
+			dir, _, err := filesystem.OpenDirectory(w.diskPath(d), false)
+			must(err)
+			k := "f"
+			if wantDir {
+				k = "d"
+				if sub, err := dir.OpenDirectory(name); err != nil {
+					out = "fail"
+				} else {
+					out = "ok-dir"
+					// listing what was opened must not show canary content
+					if names, _ := sub.ReadContentNames(); len(names) > 0 {
+						for _, n := range names {
+							if strings.HasPrefix(n, "secret") {
+								fail("escape-read", "Directory.OpenDirectory(%q) reached the canary", name)
+							}
+						}
+					}
+					sub.Close()
+				}
+			} else {
+				res, data := openResult(first2(dir.OpenFile(name)))
+				out = res
+				if bytes.HasPrefix(data, []byte("CANARY")) {
+					fail("escape-read", "Directory.OpenFile(%q) returned canary content", name)
+				}
+			}
+			dir.Close()
+			item = fmt.Sprintf("p:%d:%s:%s", d, hx.EncText(name), k)
+			c.Count("primitive:" + out[:2])
 		case x < 40:
 			opener.Close()
 			opener = filesystem.NewOpener(w.root)
@@ -867,7 +927,7 @@ func main() {
 		} else {
 			c.Count("self-test:read-detected-by-atime")
 		}
-		n := c.Size(1500, 30000)
+		n := c.Size(1200, 20000)
 		for i := 0; i < n; i++ {
 			if i%5 == 4 {
 				w.scanCase(c, i)
